@@ -115,3 +115,15 @@ Theorem C15_threads_model_sb : forall (parallelism : N) (threads : option (list 
   thread_counts_sb parallelism threads (thread_counts parallelism threads) = true.
 Proof. exact thread_counts_sb_model. Qed.
 Print Assumptions C15_threads_model_sb.
+
+(** The options the violation search derives from the specification alone
+    (first [Some] per field) are the model's. *)
+Theorem C15_spec_effective : forall (runner : options) (groups : list (option options)) (bench : option options),
+  spec_effective runner groups bench = resolve runner groups bench.
+Proof. exact spec_effective_correct. Qed.
+Print Assumptions C15_spec_effective.
+
+Theorem C15_spec_runner : forall (before flags env after : options),
+  spec_runner before flags env after = runner_level before flags env after.
+Proof. exact spec_runner_correct. Qed.
+Print Assumptions C15_spec_runner.
